@@ -515,4 +515,126 @@ theorem flex_listVoters_complete {gm : Cw4Group.InstMsg} {h0 : Nat} {g0 : Cw4Gro
   group_listMembers_loop
     (Cw3Flex.run_group_nodup ext fuel ops _ (Cw4Group.run_nodup gops (Cw4Group.instantiate_nodup hg))) limit hl hf
 
+/-! ## All 13 listings together -/
+
+/-- **C20 for the 13 listings outside cw20-base.**  Take any reachable state of each of the six contracts
+(any accepted instantiation, any history; the flex world stands on a group contract that was itself instantiated
+and went through any history), any limit other than 0 (absent, 1, …, above 30), any query block `blk`, any
+proposal id.  For every listing the client loop "request a page, continue from the key of the last returned item"
+returns every current item exactly once in key order: the sorted entries of the underlying map — reversed for
+`ReverseProposals`, restricted to the unexpired entries for the subkeys `AllAllowances`.  (`length + 1` requests
+suffice; the `…_complete` theorems give the same for every larger number.)  The only hypothesis that is not
+reachability is `StatusTotal` for the two proposal listings of cw3-flex (see the header). -/
+theorem all_listings_complete
+    -- cw1-subkeys
+    {skm : Cw1Subkeys.InstMsg} {sk0 : Cw1Subkeys.State} (hsk : Cw1Subkeys.instantiate skm = .ok sk0)
+    (skops : List (Block × Addr × Cw1Subkeys.Msg))
+    -- cw3-fixed
+    {xfuel : Nat} {wx : Cw3Fixed.World} (hfx : Cw3Fixed.Reachable xfuel wx)
+    -- cw4-group, and cw3-flex on top of it
+    {gm : Cw4Group.InstMsg} {h0 : Nat} {g0 : Cw4Group.State} (hg : Cw4Group.instantiate gm h0 = .ok g0)
+    (gops : List Cw4Group.Op)
+    {fm : Cw3Flex.InstMsg} {fs : Cw3Flex.State} (hfi : Cw3Flex.instantiate fm (some (Cw4Group.run g0 gops)) = .ok fs)
+    (t : Cw20.State) (bank : AMap (Addr × String) Nat) (self groupAddr tokenAddr : Addr) (hh : Nat)
+    (ext : Cw3Flex.Ext) (ffuel : Nat) (fops : List Cw3Flex.Op)
+    -- cw4-stake
+    {sm : Cw4Stake.InstMsg} {ss0 : Cw4Stake.State} (hst : Cw4Stake.instantiate sm = .ok ss0)
+    (bal : AMap Addr Nat) (accepting : List Addr) (sops : List (Block × Cw4Stake.Op))
+    -- cw20-ics20
+    {im : Ics20.InstMsg} {iw0 : Ics20.World} (hic : Ics20.instantiate im = .ok iw0.st) (iops : List (Block × Ics20.Op))
+    -- query parameters
+    (blk : Block) (id : Nat) (limit : Option Nat) (hl : limit ≠ some 0)
+    (hv : StatusTotal (Cw3Flex.run ext ffuel
+      (Cw3Flex.World.init fs (Cw4Group.run g0 gops) t bank self groupAddr tokenAddr hh) fops).flex.core blk) :
+    let sk := subkeysRun sk0 skops
+    let g := Cw4Group.run g0 gops
+    let wf := Cw3Flex.run ext ffuel (Cw3Flex.World.init fs g t bank self groupAddr tokenAddr hh) fops
+    let ws := Cw4Stake.run (Cw4Stake.World.init ss0 bal accepting) sops
+    let wi := ics20Run iw0 iops
+    -- 1, 2: cw1-subkeys
+    (fetchLoop (fun c => Cw1Subkeys.queryAllAllowances sk blk c limit) (·.1) none (sk.allowances.length + 1)
+        = (sortedEntries strLt sk.allowances).filter (live blk)) ∧
+    (fetchLoop (fun c => Cw1Subkeys.queryAllPermissions sk c limit) (·.1) none (sk.permissions.length + 1)
+        = sortedEntries strLt sk.permissions) ∧
+    -- 3 - 6: cw3-fixed
+    (Cw3Core.viewAll blk (sortedEntries natLt wx.ms.core.proposals)
+        = .ok (fetchLoop (fun c => okItems (Cw3Fixed.listProposals wx.ms blk c limit)) (·.id) none
+            (wx.ms.core.proposals.length + 1))) ∧
+    (Cw3Core.viewAll blk (sortedEntries natLt wx.ms.core.proposals).reverse
+        = .ok (fetchLoop (fun c => okItems (Cw3Fixed.reverseProposals wx.ms blk c limit)) (·.id) none
+            (wx.ms.core.proposals.length + 1))) ∧
+    (fetchLoop (fun c => Cw3Fixed.listVotes wx.ms id c limit) (·.1) none ((Cw3Core.ballotsOf wx.ms.core id).length + 1)
+        = sortedEntries strLt (Cw3Core.ballotsOf wx.ms.core id)) ∧
+    (fetchLoop (fun c => Cw3Fixed.listVoters wx.ms c limit) (·.1) none (wx.ms.voters.length + 1)
+        = sortedEntries strLt wx.ms.voters) ∧
+    -- 7 - 10: cw3-flex
+    (Cw3Core.viewAll blk (sortedEntries natLt wf.flex.core.proposals)
+        = .ok (fetchLoop (fun c => okItems (Cw3Flex.listProposals wf.flex blk c limit)) (·.id) none
+            (wf.flex.core.proposals.length + 1))) ∧
+    (Cw3Core.viewAll blk (sortedEntries natLt wf.flex.core.proposals).reverse
+        = .ok (fetchLoop (fun c => okItems (Cw3Flex.reverseProposals wf.flex blk c limit)) (·.id) none
+            (wf.flex.core.proposals.length + 1))) ∧
+    (fetchLoop (fun c => okItems (Cw3Flex.listVotes wf.flex id (c.map (⟨true, ·⟩)) limit)) (·.1) none
+          ((Cw3Core.ballotsOf wf.flex.core id).length + 1)
+        = sortedEntries strLt (Cw3Core.ballotsOf wf.flex.core id)) ∧
+    (fetchLoop (fun c => okItems (Cw3Flex.listVoters wf.group (c.map (⟨true, ·⟩)) limit)) (·.1) none
+          (wf.group.members.cur.length + 1)
+        = sortedEntries strLt wf.group.members.cur) ∧
+    -- 11: cw4-group
+    (fetchLoop (fun c => okItems (Cw4Group.queryListMembers g (c.map (⟨true, ·⟩)) limit)) (·.1) none
+          (g.members.cur.length + 1)
+        = sortedEntries strLt g.members.cur) ∧
+    -- 12: cw4-stake
+    (fetchLoop (fun c => okItems (Cw4Stake.queryListMembers ws.st (c.map (⟨true, ·⟩)) limit)) (·.1) none
+          (ws.st.members.cur.length + 1)
+        = sortedEntries strLt ws.st.members.cur) ∧
+    -- 13: cw20-ics20
+    (fetchLoop (fun c => okItems (Ics20.queryListAllowed wi.st (c.map (⟨true, ·⟩)) limit)) (·.1) none
+          (wi.st.allow.length + 1)
+        = sortedEntries strLt wi.st.allow) := by
+  intro sk g wf ws wi
+  have hrf : Cw3Flex.Reachable ext ffuel wf :=
+    ⟨fm, fs, g, t, bank, self, groupAddr, tokenAddr, hh, fops, hfi, rfl⟩
+  exact ⟨subkeys_allAllowances_complete hsk skops blk limit hl (Nat.le_refl _),
+    subkeys_allPermissions_complete hsk skops limit hl (Nat.le_refl _),
+    fixed_listProposals_complete hfx blk limit hl (Nat.le_refl _),
+    fixed_reverseProposals_complete hfx blk limit hl (Nat.le_refl _),
+    fixed_listVotes_complete hfx id limit hl (Nat.le_refl _),
+    fixed_listVoters_complete hfx limit hl (Nat.le_refl _),
+    flex_listProposals_complete hrf blk hv limit hl (Nat.le_refl _),
+    flex_reverseProposals_complete hrf blk hv limit hl (Nat.le_refl _),
+    flex_listVotes_complete hrf id limit hl (Nat.le_refl _),
+    flex_listVoters_complete hg gops fs t bank self groupAddr tokenAddr hh ext ffuel fops limit hl (Nat.le_refl _),
+    group_listMembers_complete hg gops limit hl (Nat.le_refl _),
+    stake_listMembers_complete hst bal accepting sops limit hl (Nat.le_refl _),
+    ics20_listAllowed_complete hic iops limit hl (Nat.le_refl _)⟩
+
+/-- **Page bounds of the 13 listings**, for every state (reachable or not), cursor and limit: no page has more
+than `effLimit limit = min (limit or 10) 30` items (a rejected query shows none). -/
+theorem all_listings_page_len (sk : Cw1Subkeys.State) (fx : Cw3Fixed.State) (fl : Cw3Flex.State)
+    (g : Cw4Group.State) (st : Cw4Stake.State) (ic : Ics20.State) (blk : Block) (id : Nat)
+    (cs : Option String) (cn : Option Nat) (cg : Option Cw4Group.AddrArg) (c3 : Option Cw3Core.AddrArg)
+    (c4 : Option Cw4Stake.AddrArg) (ci : Option Ics20.AddrArg) (limit : Option Nat) :
+    (Cw1Subkeys.queryAllAllowances sk blk cs limit).length ≤ effLimit limit ∧
+    (Cw1Subkeys.queryAllPermissions sk cs limit).length ≤ effLimit limit ∧
+    (okItems (Cw3Fixed.listProposals fx blk cn limit)).length ≤ effLimit limit ∧
+    (okItems (Cw3Fixed.reverseProposals fx blk cn limit)).length ≤ effLimit limit ∧
+    (Cw3Fixed.listVotes fx id cs limit).length ≤ effLimit limit ∧
+    (Cw3Fixed.listVoters fx cs limit).length ≤ effLimit limit ∧
+    (okItems (Cw3Flex.listProposals fl blk cn limit)).length ≤ effLimit limit ∧
+    (okItems (Cw3Flex.reverseProposals fl blk cn limit)).length ≤ effLimit limit ∧
+    (okItems (Cw3Flex.listVotes fl id c3 limit)).length ≤ effLimit limit ∧
+    (okItems (Cw3Flex.listVoters g cg limit)).length ≤ effLimit limit ∧
+    (okItems (Cw4Group.queryListMembers g cg limit)).length ≤ effLimit limit ∧
+    (okItems (Cw4Stake.queryListMembers st c4 limit)).length ≤ effLimit limit ∧
+    (okItems (Ics20.queryListAllowed ic ci limit)).length ≤ effLimit limit ∧
+    effLimit limit ≤ 30 ∧ effLimit none = 10 :=
+  ⟨(subkeys_allAllowances_page_len sk blk cs limit).1, subkeys_allPermissions_page_len sk cs limit,
+   (fixed_listProposals_page_len fx blk cn limit).1, (fixed_reverseProposals_page_len fx blk cn limit).1,
+   fixed_listVotes_page_len fx id cs limit, fixed_listVoters_page_len fx cs limit,
+   (flex_listProposals_page_len fl blk cn limit).1, (flex_reverseProposals_page_len fl blk cn limit).1,
+   (flex_listVotes_page_len fl id c3 limit).1, (flex_listVoters_page_len g cg limit).1,
+   (group_listMembers_page_len g cg limit).1, (stake_listMembers_page_len st c4 limit).1,
+   (ics20_listAllowed_page_len ic ci limit).1, effLimit_le_max limit, effLimit_none⟩
+
 end CwPlus.Props.C20Listings
